@@ -995,6 +995,8 @@ def _requirements_part(ctx, events, recipes):
         for which, pk in (('too narrow', 'gaussian'), ('too wide', 'gaussian'), ('fine', 'gaussian'),
                           ('marginally narrow', 'gaussian'), ('marginally narrow', 'pseudo_voigt'),
                           ('marginally narrow', 'lorentzian'), ('fine', 'pseudo_voigt')):
+            if not ctx.thorough and which == 'marginally narrow' and pk != 'pseudo_voigt' and (sx, sy) not in SCALES[:2]:
+                continue      # quick: the other peak models at two magnitudes only
             def fn(evs, a=(nseed, sx, sy, which, pk)):
                 case(evs, *a)
             start = len(events)
@@ -1034,7 +1036,7 @@ def _requirements_part(ctx, events, recipes):
             evs.append(_fit_event(ctx, 0, r, x, y, var, step, req, ['gaussian'], list(bks)))
             ctx.case(nontrivial_id=('curved', amp, tuple(bks), sx, sy, nseed))
 
-    for k in range(20 if ctx.thorough else 7):
+    for k in range(20 if ctx.thorough else 6):
         nseed = rng.getrandbits(32)
         sx, sy = SCALES[k % len(SCALES)] if k % 4 == 3 else (1.0, 1.0)
         for amp in ((0.0, 0.6, 1.2, 2.5) if ctx.thorough else (0.0, 0.6, 1.2)):
